@@ -150,6 +150,9 @@ pub enum HostileMut {
     Extend { bytes: Vec<u8> },
     /// Consistent rewrite: some list of the object emptied together with its count.
     Empty { which: u8 },
+    /// The k-th count/length field re-encoded as a padded (non-canonical) LEB128 of
+    /// `original value + delta`, with `pad` redundant continuation bytes.
+    FieldPadded { k: usize, delta: u64, pad: u8 },
 }
 
 #[derive(Clone, Debug, PartialEq, Eq, Serialize, Deserialize)]
@@ -193,6 +196,12 @@ pub enum Ev {
     /// Enumerate hostile rewrites of one object: every truncation, every byte xor {0x01,0x80,0xff},
     /// every count/length field x every boundary value.
     SweepHostile { target: HostileTarget, parser: Parser, stride: usize },
+    /// Doubling experiment on a parser: a valid structure of n and of 4n attributes is
+    /// deserialized; the thread CPU time must grow about linearly (C14: time proportional to input).
+    ScaleProbe { n: usize },
+    /// `n` encapsulations made from another OS thread on the encryptor's instance (C16: freshness
+    /// across threads, without any race: the threads run one after the other).
+    EncryptOtherThread { enc: usize, pol: PolArg, n: u32 },
 }
 
 #[derive(Clone, Debug, PartialEq, Eq, Serialize, Deserialize)]
@@ -233,6 +242,8 @@ impl Ev {
             Ev::SweepSlot { .. } => "SweepSlot",
             Ev::SweepUsk { .. } => "SweepUsk",
             Ev::SweepHostile { .. } => "SweepHostile",
+            Ev::ScaleProbe { .. } => "ScaleProbe",
+            Ev::EncryptOtherThread { .. } => "EncryptOtherThread",
         }
     }
 }
